@@ -107,7 +107,7 @@ def finish(ck, seed=0):
             kn_hits.append((o, hit))
         else:
             violations.append(o)
-    ev_dir = os.path.join(VERIF, "evidence")
+    ev_dir = os.environ.get("NRFSA_EVIDENCE_DIR") or os.path.join(VERIF, "evidence")   # dev runs against scratch trees write elsewhere
     rp_dir = os.path.join(ev_dir, "replay")
     os.makedirs(rp_dir, exist_ok=True)
     # clear stale replay files of this property
